@@ -2,6 +2,8 @@ import PandoraModel.Properties.C13
 import PandoraModel.Properties.C13Steps
 import PandoraModel.Properties.C13Util
 import PandoraModel.Properties.C13Median
+import PandoraModel.Properties.C13Refinement
+import PandoraModel.Properties.C13CrossCheck
 open Pandora.C13
 #print axioms Local.comp
 #print axioms Local.pair
@@ -22,3 +24,15 @@ open Pandora.C13
 #print axioms medianStep_equivariant
 #print axioms medianFilterDisparity_is_medianStep
 #print axioms median_crop_eq_whole
+#print axioms refineStep_local
+#print axioms refineStep_equivariant
+#print axioms loopRefinement_ok_iff
+#print axioms loopRefinement_is_refineStep
+#print axioms refine_crop_eq_whole
+#print axioms ccPixel_eq_rel
+#print axioms ccPixelRel_congr
+#print axioms ccStep_local
+#print axioms ccCone_offset_zero
+#print axioms ccStep_equivariant
+#print axioms check_is_ccStep
+#print axioms cc_crop_eq_whole
